@@ -33,7 +33,7 @@ META = {
     'level': 'model_checking',
     'engines': 'E2 (Real) whole expert driver in symmetric mode with diagonal pivots and hook H1 (slot bound from the Cholesky counts); E1 for the symmetric preprocessing; E2 for the real pivotL',
     'bounds': {'driver': 'n<=3, every pattern with full diagonal (n=3: 40 sampled in quick), column permutations, w/relax/maxsuper 1..3, all values for which the diagonal pivots are non-zero',
-               'preprocessing': 'as C10 with SymmetricMode on', 'pivotL': 'as C02: diagonal chosen whenever non-zero and passing the threshold (u = 0 included)'},
+               'preprocessing': 'as C10 with SymmetricMode on (n<=4 symbolic permutation, n=5 concrete): etree, exact Cholesky column counts, nested supernodes', 'pivotL': 'as C02: diagonal chosen whenever non-zero and passing the threshold (u = 0 included)'},
     'outside': ['n > 3', 'diagonal dominance itself (the queries assume the diagonal pivots are non-zero, which dominance guarantees)', 'rounding', 'thread interleavings'],
     'assumptions': ['pivot forced to the diagonal row in the driver queries; that the real pivotL chooses it is the pivotL unit result'],
     'trusted_base': ['cbmc 6.11', 'MiniSat', 'tools/fp2alg.py', 'z3'],
